@@ -205,7 +205,15 @@ private:
       size=proxy.suv1.size;
     }
     //evaluate in place
-    proxy.compute(detail::vector_wrapper<WrapperType>{dim,components});
+    try{
+      proxy.compute(detail::vector_wrapper<WrapperType>{dim,components});
+    }catch(...){
+      //a user supplied element-wise operation may throw; the robbed operand
+      //must not be left referring to storage which now belongs to this vector
+      if(robbed)
+        robbed->forget_storage();
+      throw;
+    }
     //the robbed operand has served as input; it must not keep referring to
     //storage which it no longer owns
     if(robbed)
@@ -363,7 +371,17 @@ public:
     bool robbed=(components==proxy.suv1.components && proxy.suv1.isinit);
     if(robbed)
       const_cast<SU_vector&>(proxy.suv1).isinit=false; //complete the theft
-    proxy.compute(detail::vector_wrapper<detail::AssignWrapper>{dim,components});
+    try{
+      proxy.compute(detail::vector_wrapper<detail::AssignWrapper>{dim,components});
+    }catch(...){
+      //a user supplied element-wise operation may throw; no destructor will
+      //run for this vector, so the storage it owns must be released here
+      if(robbed)
+        const_cast<SU_vector&>(proxy.suv1).forget_storage();
+      if(isinit)
+        deallocate_mem();
+      throw;
+    }
     //the robbed operand has served as input; it must not keep referring to
     //storage which it no longer owns
     if(robbed)
